@@ -132,6 +132,10 @@ class Ctx:
         timed = []
         idx_of = {}
         for s in order:
+            # VERIF_SEED rotates the submission order inside a stratum: the same cases are explored, but which worker process
+            # sees which configurations one after the other (module-level state of the library) changes with the seed
+            k = self.seed % len(by[s]) if by[s] else 0
+            by[s] = by[s][k:] + by[s][:k]
             for sh in by[s]:
                 f = self.pool.submit(_call, self.mod.__name__, funcname, sh)
                 futs[f] = s
